@@ -20,6 +20,7 @@ import (
 )
 
 type Obl struct {
+	Dep bool // obligation of a function that is in the run only because a function of the property relies on its contract
 	Fn       string
 	Fails    []string // bounded stand-ins: the inputs that failed on the real code
 	Name     string // full name fn#kind.label
@@ -128,6 +129,7 @@ type FnCtx struct {
 	retCount     int
 	watchBase    []watch
 	uncontracted map[string]bool
+	usedContracts map[*Contract]bool // contracts applied at this function's call sites (dependency closure of a property check)
 	debugNames   map[*ssa.BasicBlock]map[string]ssa.Value
 	ifaceSeen    map[string]types.Type
 	recovered    bool
